@@ -598,8 +598,16 @@ def new_call_rule_for(pid):
         known_fns = set(tab['functions'])
         known = {tuple(e) for e in tab['edges']}
         fns, edges = compute_all_edges(W)
+        from .world import Effects
+        E = Effects(W)
+        pure = set()
+        for g in W.fns():
+            if g.kind != 'closure' and not g.derived and not E.of(g) and not any((g.local_ty(i) or '').startswith('&mut') for i in range(1, g.argc + 1)):
+                pure.add(short(g.path))
         n = 0
         for x, y in edges:
+            if y in pure and (x, y) not in known:
+                continue     # a new call of a function without effects (a getter, a predicate) moves no state; a wrong VALUE is the business of the rule that reads it
             if pid not in CALLER_PROPS.get(x.split('::')[0], []) and not (pid in ('C08', 'C14') and (y.startswith('extern ') or 'compression' in x)):
                 continue
             if x not in known_fns:
